@@ -1867,6 +1867,16 @@ def resolve_flags(fn: ast.FunctionDef) -> ast.FunctionDef:
             return True
         if isinstance(e, ast.Name):
             return e.id in stable or (depth > 0 and e.id in defs and movable(defs[e.id], depth - 1))
+        # pure type tests over names that keep their value (parameters, once-bound locals, globals such as class names)
+        if isinstance(e, ast.Call) and isinstance(e.func, ast.Name) and e.func.id in ("isinstance", "issubclass", "callable") and not e.keywords \
+                and stores.get(e.func.id, 0) == 0:
+            def fixed(x):
+                if isinstance(x, ast.Name):
+                    return x.id in stable or x.id in defs or stores.get(x.id, 0) == 0
+                if isinstance(x, ast.Tuple):
+                    return all(fixed(y) for y in x.elts)
+                return isinstance(x, ast.Constant)
+            return all(fixed(a) for a in e.args)
         if isinstance(e, ast.UnaryOp) and isinstance(e.op, ast.Not):
             return movable(e.operand, depth)
         if isinstance(e, ast.BoolOp):
